@@ -3,8 +3,9 @@
 //! (/verif/coq/model/*.v) in /verif/coq/proofs/SrcEquiv*.v.
 //!
 //! Usage:  rs2coq <src-dir>            (prints gen/Src.v on stdout: rules 1-13 only; see run.sh)
-//!         rs2coq <src-dir> <out-dir>  (writes Src.v, SrcBigint.v, SrcSlow.v, SrcParse.v into the
-//!                                      existing directory <out-dir>: rules 1-23)
+//!         rs2coq <src-dir> <out-dir>  (writes Src.v, SrcBigint.v, SrcSlow.v, SrcParse.v and the four
+//!                                      SrcFront*.v into the existing directory <out-dir>: rules
+//!                                      1-27; the front-ends are read below <src-dir>/..)
 //!
 //! # TRANSLATION RULES (this program is part of the trusted base; the rules are deliberately dumb)
 //!
@@ -161,6 +162,37 @@
 //!     rs_ translation in Src.v.  Closures passed to `round` / `round_nearest_tie_even` (rule 8)
 //!     may capture locals and use `_` parameters.
 //!
+//! Rules 24-27 translate the shipped copies of the string front-end `parse_float(bytes) -> (F,
+//! &[u8])` (gen/SrcFrontSimple.v, SrcFrontFuzz.v, SrcFrontTest.v, SrcFrontEtc.v).
+//!
+//! 24. Byte slices `&[u8]` = `list Z`: `s.len()` = `zlen s`, `s.get(i)` = `slice_get_opt s i`,
+//!     `s.first()` = `hd_error s`, `s[i]` = `slice_get s i`, `&s[..n]` = `slice_to s n`, `&s[n..]`
+//!     = `slice_from s n` (SrcLib: Panic PkIndex beyond the end), `s.iter()` / `for c in s` = the
+//!     list; a byte string `b"NaN"` = the list of its bytes `[78; 97; 78]`.  `match` (rule 19)
+//!     also takes byte literals (`Some(&b'+')` = `(match t with Some 43 => true | _ => false
+//!     end)`) and or-patterns (`p | q` = `(test_p || test_q)`, no bindings); a two-armed `match`
+//!     on an Option with a binding arm (`Some(v) => A, None | _ => B`, any order) is `match t with
+//!     Some v_v => A | None => B end` like `if let`.
+//! 25. `o.is_some()` / `o.is_none()` = `(match o with Some _ => true | None => false end)` / its
+//!     negation; `o.map_or(d, |p| e)` = `(match o with Some p => e | None => d end)` with `e`
+//!     effect-free (`let`s become `let .. in`); `(c as char).to_digit(10)` on a `u8` =
+//!     `u8_to_digit10 c` (SrcLib; only this form, radix literal 10); `e.take_while(|p|
+//!     t).count()` = `take_while_count (fun p => t) e` (SrcLib) for a list expression `e` of rule
+//!     17; `-x` on the float type `F` = `f_neg f x` (model/FloatOps.v).
+//! 26. A `loop { .. }` that contains no `break` of its own can only be left by `return`: it is an
+//!     expression of type `!`, and the `inl` branch after it (which `rs_loop` cannot produce) is
+//!     `Panic PkFuel`.
+//! 27. The front-end files are read below `<src-dir>/..` (examples/simple.rs,
+//!     fuzz/fuzz_targets/parse.rs, tests/integration_tests.rs,
+//!     etc/correctness/test-parse-golang/main.rs); of each, the functions parse_sign to_digit
+//!     add_digit_i32 sub_digit_i32 is_digit split_at_index consume_digits ltrim_zero rtrim_zero
+//!     parse_exponent case_insensitive_starts_with parse_float that it defines are translated to
+//!     `rs_<tag>_<fn>`, tag = simple / fuzz / test / etc (`parse_float` is required, the others
+//!     are skipped when absent).  They only see the functions of their own file, plus
+//!     `minimal_lexical::parse_float` = `rs_parse_float` of parse.rs (lib.rs is checked to say
+//!     `pub use self::parse::parse_float;`).  A missing / unparsable front-end file, or a function
+//!     that cannot be translated, is OMITTED in that front-end's output file only.
+//!
 //! Anything else (other statements, patterns, methods, macros, types, labelled blocks, `continue`,
 //! …) is an error, and the translator fails closed
 //! PER FUNCTION: a function that cannot be translated is omitted from the output (a comment
@@ -186,6 +218,7 @@ use syn::spanned::Spanned;
 use ty::*;
 
 /// What to translate.  The order is the dependency order (a callee must come first).
+#[derive(Clone, Copy)]
 struct Target {
     /// index into OUT_FILES
     out: usize,
@@ -199,19 +232,45 @@ struct Target {
     fuels: &'static [&'static str],
     /// Gallina name when it is not `rs_<name>`
     coq: &'static str,
+    /// path shown in the comment above the definition when it is not `file`
+    shown: &'static str,
 }
 
 const fn t(out: usize, file: &'static str, owner: &'static str, name: &'static str) -> Target {
-    Target { out, file, owner, name, fuel: 0, fuels: &[], coq: "" }
+    Target { out, file, owner, name, fuel: 0, fuels: &[], coq: "", shown: "" }
 }
 const fn tf(out: usize, file: &'static str, name: &'static str, fuels: &'static [&'static str]) -> Target {
-    Target { out, file, owner: "", name, fuel: 0, fuels, coq: "" }
+    Target { out, file, owner: "", name, fuel: 0, fuels, coq: "", shown: "" }
 }
 const fn tn(out: usize, file: &'static str, owner: &'static str, name: &'static str, fuels: &'static [&'static str], coq: &'static str) -> Target {
-    Target { out, file, owner, name, fuel: 0, fuels, coq }
+    Target { out, file, owner, name, fuel: 0, fuels, coq, shown: "" }
 }
 
-const OUT_FILES: [&str; 4] = ["Src.v", "SrcBigint.v", "SrcSlow.v", "SrcParse.v"];
+const OUT_FILES: [&str; 8] =
+    ["Src.v", "SrcBigint.v", "SrcSlow.v", "SrcParse.v", "SrcFrontSimple.v", "SrcFrontFuzz.v", "SrcFrontTest.v", "SrcFrontEtc.v"];
+
+/// rule 27: the shipped copies of the string front-end: (tag, path below the repository root)
+const FRONT: [(&str, &str); 4] = [
+    ("simple", "examples/simple.rs"),
+    ("fuzz", "fuzz/fuzz_targets/parse.rs"),
+    ("test", "tests/integration_tests.rs"),
+    ("etc", "etc/correctness/test-parse-golang/main.rs"),
+];
+/// their functions (dependency order) with the fuel expressions of their loops
+const FRONT_FNS: [(&str, &[&str]); 12] = [
+    ("parse_sign", &[]),
+    ("to_digit", &[]),
+    ("add_digit_i32", &[]),
+    ("sub_digit_i32", &[]),
+    ("is_digit", &[]),
+    ("split_at_index", &[]),
+    ("consume_digits", &["S (length v_digits)"]),
+    ("ltrim_zero", &[]),
+    ("rtrim_zero", &[]),
+    ("parse_exponent", &[]),
+    ("case_insensitive_starts_with", &["S (length v_y)"]),
+    ("parse_float", &[]),
+];
 
 const TARGETS: &[Target] = &[
     t(0, "mask.rs", "", "nth_bit"),
@@ -244,7 +303,7 @@ const TARGETS: &[Target] = &[
     t(0, "bellerophon.rs", "", "bellerophon"),
     t(0, "slow.rs", "", "b"),
     t(0, "slow.rs", "", "bh"),
-    Target { out: 0, file: "slow.rs", owner: "", name: "scientific_exponent", fuel: 20, fuels: &[], coq: "" },
+    Target { out: 0, file: "slow.rs", owner: "", name: "scientific_exponent", fuel: 20, fuels: &[], coq: "", shown: "" },
     // ---- gen/SrcBigint.v
     t(1, "bigint.rs", "", "scalar_add"),
     t(1, "bigint.rs", "", "scalar_mul"),
@@ -502,7 +561,11 @@ fn generic_types(sig: &syn::Signature) -> R<HashMap<String, Ty>> {
                     }
                 } else if seg.ident == "Iterator" {
                     let args: String = quote::quote!(#seg).to_string().replace(' ', "");
-                    if args != "Iterator<Item=&'au8>" {
+                    let ok = match args.strip_prefix("Iterator<Item=&'").and_then(|r| r.strip_suffix("u8>")) {
+                        Some(lt) => !lt.is_empty() && lt.chars().all(|c| c.is_ascii_lowercase()),
+                        None => false,
+                    };
+                    if !ok {
                         return err(tb.span(), format!("unsupported iterator bound `{}`", args));
                     }
                     m.insert(name.clone(), Ty::Seq(Box::new(Ty::Int(IntTy::U8))));
@@ -691,7 +754,7 @@ fn prelude() -> String {
     s
 }
 
-/// header of gen/SrcBigint.v, gen/SrcSlow.v, gen/SrcParse.v
+/// header of gen/SrcBigint.v, gen/SrcSlow.v, gen/SrcParse.v, gen/SrcFront*.v
 fn prelude_ext(out: usize) -> String {
     let mut s = String::new();
     s.push_str(GENERATED);
@@ -701,8 +764,11 @@ fn prelude_ext(out: usize) -> String {
         2 => s.push_str(
             "From ML Require Import base.RustSem model.Fmt model.FloatOps model.Num model.Number model.Vec model.SrcLib\n  gen.Src gen.SrcBigint.\n",
         ),
-        _ => s.push_str(
+        3 => s.push_str(
             "From ML Require Import base.RustSem model.Fmt model.FloatOps model.Num model.Number model.Vec model.SrcLib\n  gen.Src gen.SrcBigint gen.SrcSlow.\n",
+        ),
+        _ => s.push_str(
+            "From ML Require Import base.RustSem model.Fmt model.FloatOps model.Num model.Number model.Vec model.SrcLib\n  model.SrcLibFront gen.Src gen.SrcBigint gen.SrcSlow gen.SrcParse.\n",
         ),
     }
     s.push_str("Import ListNotations.\nOpen Scope Z_scope.\nOpen Scope rust_scope.\n\n");
@@ -814,6 +880,7 @@ fn main() {
         limb_ok: Err("the extension (rules 14-23) is not active in this run".into()),
         number_default: struct_fields(&files["number.rs"], "Number").map(|(_, s)| has_derive(&s.attrs, "Default")).unwrap_or(false),
         shl_limbs_ok: false,
+        export_parse_float: false,
     };
     for it in &files["num.rs"].items {
         if let syn::Item::Trait(t) = it {
@@ -916,9 +983,56 @@ fn main() {
     // ---- translate (keep going: a function that cannot be translated is omitted, and so are,
     // transitively, its callers; the proofs then fail exactly where they mention it)
     let only: Vec<String> = if ext { vec![] } else { args[2..].to_vec() };
-    let mut outs: Vec<String> = vec![prelude(), prelude_ext(1), prelude_ext(2), prelude_ext(3)];
+    let mut outs: Vec<String> = vec![prelude()];
+    for i in 1..OUT_FILES.len() {
+        outs.push(prelude_ext(i));
+    }
     let mut omitted: Vec<String> = vec![];
-    for tg in TARGETS {
+    // rule 27: the string front-ends, below `<src-dir>/..`.  A missing / unparsable file or an
+    // untranslatable function only affects that front-end's output file.
+    let mut targets: Vec<Target> = TARGETS.iter().map(|t| Target { ..*t }).collect();
+    if ext {
+        // `minimal_lexical::parse_float` is parse.rs's `parse_float`
+        if let Ok(src) = std::fs::read_to_string(format!("{}/lib.rs", dir)) {
+            if let Ok(f) = syn::parse_file(&src) {
+                g.export_parse_float = f.items.iter().any(|it| match it {
+                    syn::Item::Use(u) if matches!(u.vis, syn::Visibility::Public(_)) => {
+                        let t = &u.tree;
+                        quote::quote!(#t).to_string().replace(' ', "") == "self::parse::parse_float"
+                    }
+                    _ => false,
+                });
+            }
+        }
+        for (i, (tag, rel)) in FRONT.iter().enumerate() {
+            let out = 4 + i;
+            let fkey: &'static str = Box::leak(format!("front_{}", tag).into_boxed_str());
+            let path = format!("{}/../{}", dir, rel);
+            let parsed = std::fs::read_to_string(&path)
+                .map_err(|e| format!("cannot read {}: {}", path, e))
+                .and_then(|src| syn::parse_file(&src).map_err(|e| format!("{}: parse error: {}", path, e)));
+            match parsed {
+                Ok(f) => {
+                    for (name, fuels) in FRONT_FNS.iter() {
+                        // a helper that this copy does not have is simply absent; `parse_float` is required
+                        if find_fn(&f, "", name).is_none() && *name != "parse_float" {
+                            continue;
+                        }
+                        let coq: &'static str = Box::leak(format!("rs_{}_{}", tag, name).into_boxed_str());
+                        targets.push(Target { out, file: fkey, owner: "", name, fuel: 0, fuels, coq, shown: rel });
+                    }
+                    files.insert(fkey.to_string(), f);
+                }
+                Err(e) => {
+                    let reason = e.replace("(*", "( *").replace("*)", "* )").replace('\n', " ");
+                    eprintln!("rs2coq: OMITTED {}: {}", fkey, reason);
+                    outs[out].push_str(&format!("(* OMITTED {}: {} *)\n\n", fkey, reason));
+                    omitted.push(fkey.to_string());
+                }
+            }
+        }
+    }
+    for tg in targets.iter() {
         if !ext && tg.out != 0 {
             continue;
         }
@@ -935,13 +1049,13 @@ fn main() {
         let out = &mut outs[tg.out];
         match res {
             Ok((fi, def)) => {
-                out.push_str(&format!("(** {} : `{}` *)\n", file, key));
+                out.push_str(&format!("(** {} : `{}` *)\n", if tg.shown.is_empty() { file } else { tg.shown }, key));
                 out.push_str(&def);
                 out.push('\n');
                 g.fns.insert(table_key, fi);
             }
             Err(e) => {
-                let reason = format!("{}: {}", file, e).replace("(*", "( *").replace("*)", "* )").replace('\n', " ");
+                let reason = format!("{}: {}", if tg.shown.is_empty() { file } else { tg.shown }, e).replace("(*", "( *").replace("*)", "* )").replace('\n', " ");
                 let cname = if tg.coq.is_empty() { format!("rs_{}", name) } else { tg.coq.to_string() };
                 eprintln!("rs2coq: OMITTED {}: {}", cname, reason);
                 out.push_str(&format!("(* OMITTED {}: {} *)\n\n", cname, reason));
